@@ -152,16 +152,25 @@ func (s *server) remoteWrite(db string, tss []prompb.TimeSeries) error {
 		return err
 	}
 	body := snappy.Encode(nil, raw)
-	resp, err := s.hc.Post(s.base+"/api/v1/write?db="+db, "application/x-protobuf", bytes.NewReader(body))
-	if err != nil {
-		return err
+	// a 5xx right after CREATE DATABASE ("shard group not found") is the meta service catching up, not PromQL: retry
+	var last error
+	for try := 0; try < 6; try++ {
+		resp, err := s.hc.Post(s.base+"/api/v1/write?db="+db, "application/x-protobuf", bytes.NewReader(body))
+		if err != nil {
+			return err
+		}
+		b, _ := io.ReadAll(resp.Body)
+		resp.Body.Close()
+		if resp.StatusCode < 300 {
+			return nil
+		}
+		last = fmt.Errorf("remote write status %d: %s", resp.StatusCode, b)
+		if resp.StatusCode < 500 {
+			return last
+		}
+		time.Sleep(400 * time.Millisecond)
 	}
-	defer resp.Body.Close()
-	b, _ := io.ReadAll(resp.Body)
-	if resp.StatusCode >= 300 {
-		return fmt.Errorf("remote write status %d: %s", resp.StatusCode, b)
-	}
-	return nil
+	return last
 }
 
 // ---- canonical results ------------------------------------------------------------------------------------
